@@ -74,7 +74,8 @@ def run(chk, replay=None):
     _, meth, _ = run_lines(hx, ['methods'], [])
     _, hl, _ = run_lines(hx, ['helpers'], [])
     gen = {'Cellml/Generated/Profiles.lean': tables.profiles_table('\n'.join(prof)),
-           'Cellml/Generated/Methods.lean': tables.methods_table('\n'.join(meth), '\n'.join(hl))}
+           'Cellml/Generated/Methods.lean': tables.methods_table('\n'.join(meth), '\n'.join(hl)),
+           'Cellml/Generated/NeedFlags.lean': tables.need_flags_table(REPO)}
     leandir, ok, out, changed = standard_lean(chk, 'C17', gen)
     chk.assumptions += [
         'the Lean model predicts counts, info entries, buffer sizes and the emitted helper set from the analysed model (variables, equation ASTs); the text layout around them (templates of the profile) is parsed by the check, not modelled',
